@@ -58,6 +58,7 @@ type RunSpec struct {
 	ParamsT  map[string]int `json:"params_thorough"`
 	FPExact  bool           `json:"fp_exact_add"`
 	Solver   string         `json:"solver"`
+	SymSl    bool           `json:"sym_slices"`
 	WallS    int            `json:"wall_s"`
 }
 
@@ -84,7 +85,7 @@ func runHarnesses(l *Loaded, spec RunSpec, workers int, verbose bool) []HarnessR
 			continue
 		}
 		cfg := Config{FloatModel: spec.Model, SolverBin: spec.Solver, SoftMS: spec.SoftMS, MaxSteps: spec.MaxSteps, MaxConcr: spec.MaxConcr,
-			Merge: spec.Merge, Workers: workers, MaxPaths: spec.MaxPaths, Verbose: verbose, FPExactAdd: spec.FPExact}
+			Merge: spec.Merge, Workers: workers, MaxPaths: spec.MaxPaths, Verbose: verbose, FPExactAdd: spec.FPExact, SymSlices: spec.SymSl}
 		if cfg.FloatModel == "" {
 			cfg.FloatModel = "R"
 		}
@@ -143,6 +144,7 @@ func cmdRun(args []string) int {
 	fpexact := fs.Bool("fp-exact-add", false, "model F: real fp.add/sub")
 	maxPaths := fs.Int("max-paths", 0, "path budget")
 	solver := fs.String("solver", "", "solver binary (default z3-new)")
+	symsl := fs.Bool("sym-slices", false, "keep slice offsets symbolic")
 	fs.Parse(args)
 	t0 := time.Now()
 	l, err := loadProgram(repoRoot, filepath.Join(verifRoot, "harness"), *pkg, *tags)
@@ -151,7 +153,7 @@ func cmdRun(args []string) int {
 		return 2
 	}
 	fmt.Fprintf(os.Stderr, "loaded %s in %.1fs; harnesses: %v\n", *pkg, time.Since(t0).Seconds(), l.Harness)
-	spec := RunSpec{Pkg: *pkg, Tags: *tags, Model: *model, Merge: *merge, SoftMS: *soft, FPExact: *fpexact, MaxPaths: *maxPaths, Solver: *solver}
+	spec := RunSpec{Pkg: *pkg, Tags: *tags, Model: *model, Merge: *merge, SoftMS: *soft, FPExact: *fpexact, MaxPaths: *maxPaths, Solver: *solver, SymSl: *symsl}
 	if *harness != "" {
 		spec.Harness = strings.Split(*harness, ",")
 	}
